@@ -1,9 +1,17 @@
 //! Correspondence harness: runs the real ebml-iterable code on one case per input line and
-//! prints one canonical result line per case (formats: DESIGN.md Appendix A).
+//! prints one canonical result line per case (formats: FORMAT.md).
 use std::io::{self, BufRead, Write};
+use std::panic::{catch_unwind, AssertUnwindSafe};
 
-mod util;
+mod alloc;
+mod dynspec;
+mod reader_cmd;
 mod tools_cmd;
+mod util;
+mod writer_cmd;
+
+#[global_allocator]
+static GLOBAL: alloc::Counting = alloc::Counting;
 
 fn main() {
     std::panic::set_hook(Box::new(|_| {}));
@@ -17,10 +25,17 @@ fn main() {
             continue;
         }
         let toks: Vec<&str> = line.split(' ').collect();
-        let res = match toks[0] {
+        // Library panics are caught per API call inside the commands; this outer guard only
+        // keeps a harness bug on a malformed case from killing the process.
+        let res = catch_unwind(AssertUnwindSafe(|| match toks[0] {
             "T" => tools_cmd::run(&toks[1..]),
+            "W" => writer_cmd::run(&toks[1..]),
+            "R" => reader_cmd::run_blocking(&toks[1..], false),
+            "M" => reader_cmd::run_blocking(&toks[1..], true),
+            "A" => reader_cmd::run_async(&toks[1..]),
             other => format!("BADCMD {}", other),
-        };
+        }))
+        .unwrap_or_else(|_| "BADCASE harness-panic".to_string());
         writeln!(out, "{}", res).unwrap();
     }
     out.flush().unwrap();
